@@ -71,6 +71,8 @@ class KrausChannel(raw_types.Gate):
             return NotImplemented
         if self._key != other._key:
             return False
+        if np.shape(self._kraus_ops) != np.shape(other._kraus_ops):
+            return False
         return np.allclose(np.asarray(self._kraus_ops), np.asarray(other._kraus_ops))
 
     def num_qubits(self) -> int:
